@@ -508,6 +508,13 @@ def run(ctx):
                 if geo == "G3" and not thorough and (bits not in QUICK_G3 or start == "spun"):
                     continue
                 names.append("%s|%s|%d|%s" % (geo, bits, ctx.seed, start))
+    # thorough: depth 3 for the six quick switch subsets (makeSP geometry: its two), depth 2 for the other ten subsets - the
+    # whole plan then fits the wall-clock guard on a busy machine instead of being cut off at an arbitrary point
+    depth_of = {}
+    for nm in names:
+        geo, bits = nm.split("|")[0], nm.split("|")[1]
+        deep = thorough and bits in QUICK_SUBSETS and (geo != "G3" or bits in QUICK_G3)
+        depth_of[nm] = 3 if deep else 2
 
     # the explorations are independent and each is a chain of small levels: four of them share the worker pool at a time
     # (results are collected in plan order, so the outcome does not depend on the interleaving)
@@ -518,7 +525,7 @@ def run(ctx):
         def one(name):
             if ctx.deadline - time.time() < 45.0:       # not enough left to finish a level: say so, do not start it
                 return None
-            return explorer.explore(ctx, MOD, name, depth, pool, chunk=4, replay_cap=600 if thorough else None)
+            return explorer.explore(ctx, MOD, name, depth_of[name], pool, chunk=4, replay_cap=600 if thorough else None)
         with cf.ThreadPoolExecutor(4) as tp:
             futs = [(name, tp.submit(one, name)) for name in names]
             for name, f in futs:
@@ -532,6 +539,7 @@ def run(ctx):
     cov["geometries"] = list(GEOS)
     cov["switch_subsets"] = subsets
     cov["depth_requested"] = depth
+    cov["depth_per_exploration"] = {"3": sorted(n for n, d in depth_of.items() if d == 3), "2": sorted(n for n, d in depth_of.items() if d == 2)}
     cov["starts"] = starts if thorough else {"fresh": subsets, "spun": QUICK_SPUN}
     sp0 = get_spec(results[0][0])
     cov["rule"] = ("BFS over histories of {IK x%d targets (in, too high, too low, tilted, below the base, far sideways, five targets "
